@@ -101,7 +101,7 @@ func build() (scratch, worker, inputHash string) {
 	}
 	instr := filepath.Join(verifDir, "bin", "instr")
 	if _, err := os.Stat(instr); err != nil {
-		if out, err := runCmd(verifDir, goEnv, "go", "build", "-o", instr, "./instr"); err != nil {
+		if out, err := runCmd(filepath.Join(verifDir, "instr"), goEnv, "go", "build", "-o", instr, "."); err != nil {
 			die("building instr: %v\n%s", err, out)
 		}
 	}
@@ -199,41 +199,83 @@ func runCheck(prop, tier, only string, budgetOverride time.Duration) int {
 	if n > 16 {
 		n = 16
 	}
-	if only != "" {
-		n = 1
-	}
 	replayDir := filepath.Join(verifDir, "replays")
-	reports := make([]*report, n)
+	// job list
+	jobsOut, err := exec.Command(worker, "-jobs", "-prop", prop, "-tier", tier).Output()
+	if err != nil {
+		fmt.Fprintf(os.Stderr, "vcheck: listing jobs failed: %v\n", err)
+		return 2
+	}
+	var jobs []json.RawMessage
+	var jobMeta []struct {
+		Name string `json:"name"`
+	}
+	if err := json.Unmarshal(jobsOut, &jobs); err != nil {
+		fmt.Fprintf(os.Stderr, "vcheck: job list: %v\n", err)
+		return 2
+	}
+	json.Unmarshal(jobsOut, &jobMeta)
+	if only != "" {
+		var js []json.RawMessage
+		for i, j := range jobs {
+			if jobMeta[i].Name == only {
+				js = append(js, j)
+			}
+		}
+		jobs = js
+	}
+	if len(jobs) < n {
+		n = len(jobs)
+	}
+	if n == 0 {
+		fmt.Fprintf(os.Stderr, "vcheck: no job for %s\n", prop)
+		return 2
+	}
+	deadline := time.Now().Add(budget)
+	var mu sync.Mutex
+	next := 0
+	var reports []*report
 	errs := make([]string, n)
 	var wg sync.WaitGroup
 	for i := 0; i < n; i++ {
 		wg.Add(1)
 		go func(i int) {
 			defer wg.Done()
-			out := filepath.Join(scratch, fmt.Sprintf("part-%d.json", i))
-			args := []string{"-prop", prop, "-tier", tier, "-shard", strconv.Itoa(i), "-nshards", strconv.Itoa(n),
-				"-budget", budget.String(), "-out", out, "-replays", replayDir}
-			if only != "" {
-				args = append(args, "-only", only)
-			}
-			c := exec.Command(worker, args...)
+			c := exec.Command(worker, "-serve", "-prop", prop, "-tier", tier, "-replays", replayDir, "-deadline", strconv.FormatInt(deadline.UnixNano(), 10))
 			c.Env = append(os.Environ(), "GOMAXPROCS=2")
-			b, err := c.CombinedOutput()
-			if err != nil {
-				errs[i] = fmt.Sprintf("shard %d: %v\n%s", i, err, tail(string(b), 60))
+			stdin, _ := c.StdinPipe()
+			stdout, _ := c.StdoutPipe()
+			var stderr strings.Builder
+			c.Stderr = &stderr
+			if err := c.Start(); err != nil {
+				errs[i] = err.Error()
 				return
 			}
-			pb, err := os.ReadFile(out)
-			if err != nil {
-				errs[i] = fmt.Sprintf("shard %d: %v", i, err)
-				return
+			dec := json.NewDecoder(stdout)
+			for {
+				mu.Lock()
+				if next >= len(jobs) {
+					mu.Unlock()
+					break
+				}
+				j := jobs[next]
+				next++
+				mu.Unlock()
+				if _, err := stdin.Write(append(j, '\n')); err != nil {
+					errs[i] = fmt.Sprintf("worker %d: %v\n%s", i, err, tail(stderr.String(), 60))
+					break
+				}
+				var r report
+				if err := dec.Decode(&r); err != nil {
+					errs[i] = fmt.Sprintf("worker %d died on job %s: %v\n%s", i, string(j), err, tail(stderr.String(), 60))
+					break
+				}
+				mu.Lock()
+				reports = append(reports, &r)
+				mu.Unlock()
 			}
-			var r report
-			if err := json.Unmarshal(pb, &r); err != nil {
-				errs[i] = fmt.Sprintf("shard %d: %v", i, err)
-				return
-			}
-			reports[i] = &r
+			stdin.Close()
+			c.Wait()
 		}(i)
 	}
 	wg.Wait()
